@@ -139,6 +139,11 @@ def derive(route, ci, via):
         longer = mk(SECOND)
         bars = Sequence.sequences_split_bars([seq, longer], 0, quantise_note_lengths=(route == "split_bars_requantise"))[0]
         return seq, bars[(ci + (route == "split_bars_requantise")) % len(bars)]
+    if route in ("split_bars_second_track", "split_bars_second_track_requantise"):
+        # the observed track is not the first of the call (the meta track is the other one)
+        longer = mk(SECOND)
+        bars = Sequence.sequences_split_bars([longer, seq], 0, quantise_note_lengths=route.endswith("requantise"))[1]
+        return seq, bars[(ci + route.endswith("requantise")) % len(bars)]
     raise core.MachineryError(route)
 
 
